@@ -138,6 +138,7 @@ def contracts(tier):
                               'smtlib.introduce_variables used through their '
                               'contracts (C11/native/substitute, '
                               'C11/introduce_variables)']))
+    cs.extend(substitute_contracts(tier))
     return cs
 
 
@@ -155,3 +156,233 @@ def native_checks(tier):
                     ['apply_simp', 4 if t else 3],
                     bound='command lists <= 4'),
     ]
+
+
+# ---------------------------------------------------------------------------
+# nodes.substitute, tier S: every forest shape up to a bound, symbolic ids,
+# hashes (collisions allowed) and leaf texts, against the reference
+# substitution (replace / delete the designated nodes, never look inside a
+# replacement, keep untouched subtrees as they are)
+
+import itertools  # noqa: E402
+
+from pyvc.interp import ObjVal, SymDict, PyRaise  # noqa: E402
+from . import c12  # noqa: E402
+
+
+def forest_shapes(maxn, max_trees=2):
+    out = [[]]
+    for k in range(1, max_trees + 1):
+        for parts in itertools.product(range(1, maxn + 1), repeat=k):
+            if sum(parts) > maxn:
+                continue
+            for combo in itertools.product(*[list(c12.shapes(n))
+                                             for n in parts]):
+                out.append(list(combo))
+    return out
+
+
+def build_forest(eng, p, shapes_):
+    trees = []
+    allnodes = []
+    for i, sh in enumerate(shapes_):
+        t = c12.Shaped(eng, p, sh, f't{i}')
+        trees.append(t.root)
+        allnodes.extend(t.nodes)
+    # a tree: ids pairwise distinct
+    for (x, _), (y, _) in itertools.combinations(allnodes, 2):
+        p.assume(x.attrs['id'].z != y.attrs['id'].z)
+    return trees, allnodes
+
+
+REPL_FORMS = ['delete', 'leaf', 'tree-with-key']
+
+
+def make_replacement(eng, p, form, tag, keytext):
+    if form == 'delete':
+        return None, None
+    if form == 'leaf':
+        r = c12.Shaped(eng, p, None, f'r{tag}')
+        return r.root, r.nodes
+    # (g <leaf with the text of the structural key / a fresh text>)
+    r = c12.Shaped(eng, p, [None, None], f'r{tag}')
+    if keytext is not None:
+        p.assume(r.nodes[1][0].attrs['data'].z == keytext)
+    return r.root, r.nodes
+
+
+def make_run_subst(shapes_, id_pos, id_form, with_skey, s_form):
+
+    def run(eng, p):
+        nodes_mod = eng.load_module('ddsmt.nodes')
+        eng.max_steps = eng.steps + 60000
+        trees, allnodes = build_forest(eng, p, shapes_)
+        repl = SymDict()
+        designated = {}
+        skey = None
+        keytext = None
+        if with_skey:
+            k = c12.Shaped(eng, p, None, 'key')
+            skey = k.root
+            keytext = skey.attrs['data'].z
+        sk_repl = None
+        extra_nodes = []
+        if id_pos is not None:
+            tgt = allnodes[id_pos][0]
+            r, rn = make_replacement(eng, p, id_form, 'i', keytext)
+            repl.set(eng, tgt.attrs['id'], r)
+            designated[id(tgt)] = ('id', r)
+            extra_nodes += rn or []
+        if with_skey:
+            sk_repl, rn = make_replacement(eng, p, s_form, 's', keytext)
+            repl.set(eng, skey, sk_repl)
+            extra_nodes += rn or []
+            extra_nodes += k.nodes
+        # ids of all nodes involved are pairwise distinct
+        for (x, _), (y, _) in itertools.product(allnodes, extra_nodes):
+            p.assume(x.attrs['id'].z != y.attrs['id'].z)
+        for (x, _), (y, _) in itertools.combinations(extra_nodes, 2):
+            p.assume(x.attrs['id'].z != y.attrs['id'].z)
+        snapshot = [(n, n.attrs['data'], n.attrs['id']) for n, _ in allnodes]
+        N = 'C11/substitute'
+        try:
+            out = outcome(eng, nodes_mod.g['substitute'], [trees, repl])
+        except sym.Unsupported as u:
+            if 'step budget' in str(u):
+                p.oblige(f'{N}/terminates', False,
+                         info={'signature': 'substitute does not terminate',
+                               'shapes': repr(shapes_)})
+                return
+            raise
+        p.oblige(f'{N}/terminates', True)
+        p.oblige(f'{N}/raises-nothing', out.kind == 'return',
+                 info=repr(out))
+        if out.kind != 'return':
+            return
+        p.oblige(f'{N}/argument-not-modified',
+                 all(n.attrs['data'] is d and n.attrs['id'] is i
+                     for n, d, i in snapshot) and len(trees) == len(shapes_))
+
+        # reference, evaluated under the path condition
+        def matches_key(n, sh):
+            if skey is None:
+                return False
+            return eng.truth(mk_bool(c12.struct_eq(n, sh, skey, None)))
+
+        def ref(items):
+            res = []
+            changed = False
+            for n, sh in items:
+                if id(n) in designated:
+                    r = designated[id(n)][1]
+                    changed = True
+                    if r is not None:
+                        res.append(('given', r))
+                    continue
+                if matches_key(n, sh):
+                    changed = True
+                    if sk_repl is not None:
+                        res.append(('given', sk_repl))
+                    continue
+                if sh is None:
+                    res.append(('same', n))
+                    continue
+                sub, ch = ref(list(zip(n.attrs['data'], sh)))
+                if ch:
+                    changed = True
+                    res.append(('new', sub))
+                else:
+                    res.append(('same', n))
+            return res, changed
+
+        want, changed = ref(list(zip(trees, shapes_)))
+
+        def agrees(w, got):
+            if not isinstance(got, (list, tuple)) or len(got) != len(w):
+                return False
+            for (kind, v), g in zip(w, got):
+                if kind == 'same':
+                    if g is not v:
+                        return False
+                elif kind == 'given':
+                    # the replacement as given: the same structure
+                    if not isinstance(g, ObjVal):
+                        return False
+                    if g is not v and not same_text(g, v):
+                        return False
+                else:
+                    if not isinstance(g, ObjVal) or isinstance(
+                            g.attrs['data'], (str, SStr)):
+                        return False
+                    if not agrees(v, list(g.attrs['data'])):
+                        return False
+            return True
+
+        def same_text(a, b):
+            da, db = a.attrs['data'], b.attrs['data']
+            la, lb = isinstance(da, (str, SStr)), isinstance(db, (str, SStr))
+            if la != lb:
+                return False
+            if la:
+                return eng.truth(da == db)
+            return len(da) == len(db) and all(
+                same_text(x, y) for x, y in zip(da, db))
+
+        res = out.value
+        if not changed:
+            p.oblige(f'{N}/nothing-designated-returns-the-argument',
+                     res is trees)
+        else:
+            p.oblige(f'{N}/result-is-the-reference-substitution',
+                     agrees(want, res),
+                     info={'shapes': repr(shapes_), 'signature':
+                           'result differs from the reference substitution',
+                           'want': repr([(k, nm.render(v) if isinstance(
+                               v, ObjVal) else repr(v)) for k, v in want]),
+                           'got': repr([nm.render(x) if isinstance(
+                               x, ObjVal) else repr(x) for x in (
+                                   res if isinstance(res, list) else [])])})
+
+    return run
+
+
+def substitute_contracts(tier):
+    maxn = 4 if tier == 'thorough' else 3
+    configs = []
+    for sh in forest_shapes(maxn):
+        nn = sum(_size(s) for s in sh)
+        # identity key on every position: deletion / leaf replacement
+        for id_pos in range(nn):
+            for form in ('delete', 'leaf'):
+                configs.append((sh, id_pos, form, False, None))
+        # structural leaf key: leaf replacement / replacement containing
+        # the key; alone and together with an identity key on the first node
+        for s_form in ('leaf', 'tree-with-key', 'delete'):
+            configs.append((sh, None, None, True, s_form))
+        if nn:
+            configs.append((sh, 0, 'tree-with-key', True, 'leaf'))
+    nchunks = 16
+    cs = []
+    for c in range(nchunks):
+        chunk = configs[c::nchunks]
+        if not chunk:
+            continue
+
+        def run(eng, p, chunk=chunk):
+            k = p.choose(len(chunk), 'config')
+            make_run_subst(*chunk[k])(eng, p)
+
+        cs.append(Contract(
+            f'C11/substitute[configs {c}]', ['ddsmt.nodes.substitute'],
+            run, setup=c12.setup, tier='S', max_paths=400000,
+            bound=f'forests of <= 2 trees with <= {maxn} nodes; one identity '
+            'key on any position and/or one structural leaf key; '
+            'replacements: deletion / leaf / tree containing the structural '
+            'key; ids, hashes (collisions allowed), leaf texts symbolic',
+            assumptions=['operands satisfy the class invariant '
+                         'hash == hash(data); ids pairwise distinct (tree)']))
+    return cs
+
+
+def _size(s):
+    return 1 if s is None else 1 + sum(_size(c) for c in s)
